@@ -26,7 +26,7 @@ LEVEL_TEXT = ("Lean 4 theorems for all graphs (any number of packages, targets, 
               "direct differential runs of filepath.Clean/Join, dag.FindCycle (exact cycle), the unexported path predicates and the memoised "
               "ancestor search, a model-independent reference validator, and grog check / grog build on fixed and generated workspaces.")
 LEVEL_NOTE = ("Trusted: Lean kernel; axioms propext/Classical.choice/Quot.sound; the correspondence harness (sampled beyond the exhaustive bound). "
-              "Paths are compared lexically (as the code does): symlinks and re-entering the workspace root by its own name are not identified. "
+              "Outputs are compared after resolving them from the workspace root (x and ../<rootname>/x are one file); symlinks and escaping parts hidden in glob brace alternatives are outside the model. The command-model theorems (reject_runs_nothing, executes_iff) are statements about runCmd, whose stage order is tied to cmds/*.go only by the CLI matrix. "
               "The groups of the per-tag / per-path maps of detectOutputConflicts are visited in list order by the model (map order in Go); a theorem shows the memo table never changes an answer. Loader-level errors (unparsable labels, "
               "unknown output types) are outside this property (C16). A test target without a command is rejected by the code in the same pass; "
               "the theorem carries that as an explicit extra conjunct.")
